@@ -954,8 +954,11 @@ fn gen_c07(r: &mut Prng, _i: u64, _t: Tier) -> Plan {
         // scripted generators produce 0, live ids and the peer's simultaneous choice
         e.ids = (0..60).map(|_| r.below(space + 1) as u32).collect();
         e.retries = *r.pick(&[1usize, 2, 3, 5]);
-        e.stream_buf = 16;
+        // an accept backlog of 1 or 2 slots fills up under a burst of opens and a slow acceptor:
+        // every request that succeeded must still come out of accept_stream_channel
+        e.stream_buf = *r.pick(&[1usize, 2, 16]);
     }
+    p.accept_pace = *r.pick(&[0usize, 0, 3, 12]);
     p.link.latency_ms = 0;
     let n = [1 + r.below(4), 1 + r.below(4)];
     for me in 0..2 {
@@ -1707,6 +1710,15 @@ impl Family for C13Family {
                 _ => {}
             }
             rs.push(R::Chunk(if r.chance(1, 10) { 1 + r.below(8192) } else { 1 + r.below(40) }));
+        }
+        // bulk: a local side with a lot ready at once (many large chunks back to back, 64 KiB - 1 MiB
+        // in all): whatever the bridge makes of it - one frame or several - each frame needs credit
+        if r.chance(1, 12) {
+            rs.clear();
+            let each = *r.pick(&[4096usize, 8192, 16_384, 65_536]);
+            for _ in 0..(4 + r.below(28)) {
+                rs.push(R::Chunk(each));
+            }
         }
         if r.chance(1, 3) {
             rs.push(R::PendWake);
